@@ -371,6 +371,24 @@ func gatePar1(w *World, r *Report, probe bool) {
 	} else {
 		r.unk("GATE", "G5:LoadParityData", "-", "function not found")
 	}
+	// the full parity check is attempted only when every file is usable (otherwise the coder reports mismatched shards instead of a verdict)
+	if probe {
+		if fn := w.Fn("par1.verify"); fn != nil {
+			for _, c := range callsIn(fn, "(*par1.Decoder).VerifyAllData") {
+				ok := false
+				for _, cm := range cmpsAt(c.Block()) {
+					if cm.Y == nil && cm.Op == token.NEQ && callOf(cm.X, "(par1.FileCounts).AllFilesUsable") != nil {
+						ok = true
+					}
+				}
+				if ok {
+					r.ok("GATE", "G5:verify:all-data-gate", w.ipos(c), "VerifyAllData is attempted only if FileCounts.AllFilesUsable()")
+				} else {
+					r.bad("GATE", "G5:verify:all-data-gate", w.ipos(c), "the full parity check is attempted although some data or parity file may be unusable: Verify then returns the coder's error instead of the truthful counts")
+				}
+			}
+		}
+	}
 	// G6
 	if fn := w.Fn("(*par1.Decoder).LoadFileData"); fn != nil {
 		n := 0
